@@ -14,3 +14,9 @@ open Dashu.Props.C04Pow
 #print axioms runG_cases
 #print axioms history_invariant_guarded
 #print axioms history_values_guarded
+#print axioms pow_checked_ok_below_memory
+#print axioms pow_checked_ok_of_bits
+#print axioms rbig_pow_exact_below_memory
+#print axioms runG_eq_run_below_memory
+#print axioms history_values_guarded_below_memory
+#print axioms relaxed_pow_equals_rbig_below_memory
